@@ -409,6 +409,10 @@ def into_iter(I, v):
     raise Unsupported("iterate %s" % type(v).__name__)
 
 
+class HSet(list):
+    """std::collections::HashSet over values compared with v_eq (insertion order kept, it is never observed)"""
+
+
 # ---- paths, calls, macros --------------------------------------------------------------------------------
 
 
@@ -454,6 +458,8 @@ def call_path(I, segs, args, env, fexpr):
         return I.stubs[s](I, *args)
     if last in ("Some", "Ok", "Err") and len(segs) == 1:
         return {"Some": Some, "Ok": Ok, "Err": Err}[last](args[0])
+    if s in ("HashSet::new", "HashSet::default", "std::collections::HashSet::new"):
+        return HSet()
     if s in ("String::new", "Vec::new", "String::default"):
         return SStr() if s.startswith("String") else SVec()
     if s == "String::from":
@@ -719,7 +725,7 @@ def method(I, recv, name, args, e, env):
                     out.append(x.fields[0])
                 return Ok(out)
             return SVec(items)
-        if name == "count":
+        if name in ("count", "len"):
             return len(items)
         if name == "skip":
             n = I.concretize(args[0], 0, len(items), "skip")
@@ -967,6 +973,21 @@ def method(I, recv, name, args, e, env):
     if isinstance(recv, SVec) and name in ("chars", "push_str", "split_whitespace", "split_once", "starts_with", "trim", "parse") \
             and all(isinstance(x, Ch) for x in recv):
         return method(I, SStr(recv), name, args, e, env)
+    if isinstance(recv, HSet):
+        if name == "insert":
+            for y in recv:
+                if I.truth(v_eq(I, y, args[0])):
+                    return False
+            recv.append(args[0])
+            return True
+        if name == "contains":
+            for y in recv:
+                if I.truth(v_eq(I, y, args[0])):
+                    return True
+            return False
+        if name == "len":
+            return len(recv)
+        raise Unsupported("HashSet::%s" % name)
     if isinstance(recv, SVec):
         if name == "len":
             return len(recv)
@@ -1052,6 +1073,17 @@ def method(I, recv, name, args, e, env):
             return UNIT
         if name == "pop":
             return Some(recv.pop()) if recv else NONE
+        if name in ("sort_by_cached_key", "sort_by_key") and getattr(I, "model_sort", False):
+            # stable insertion sort; a comparison of symbolic keys forks the path
+            keyed = [(I.call_closure(args[0], [x]), x) for x in recv]
+            out = []
+            for kx in keyed:
+                pos = len(out)
+                while pos > 0 and I.truth(v_cmp(I, "<", kx[0], out[pos - 1][0])):
+                    pos -= 1
+                out.insert(pos, kx)
+            recv[:] = [x for _, x in out]
+            return UNIT
         if name in ("sort_by_cached_key", "sort_by_key", "sort_by", "sort", "dedup", "dedup_by_key"):
             I.ex.notes.append(("unmodelled-reorder", name))
             return UNIT      # element order / duplicates are not modelled: only used where the obligation does not depend on them
